@@ -55,6 +55,9 @@ def gen_expr(rng, d, vars_):
     return "[%s, %s]" % (gen_expr(rng, d - 1, vars_), gen_expr(rng, d - 1, vars_))
 
 
+EXT = [False]      # constructs outside the statement model (match, do-while, closures, isset, casts): search only
+
+
 def gen_stmts(rng, d, vars_, n):
     out = []
     for _ in range(n):
@@ -79,6 +82,18 @@ def gen_stmts(rng, d, vars_, n):
             out.append("try {\n%s\nthrow new Exception(\"e\");\n} catch (Exception $e) {\n%s\n} finally {\n%s\n}" % (
                 "\n".join(gen_stmts(rng, d - 1, vars_, 1)), "\n".join(gen_stmts(rng, d - 1, vars_, 1)),
                 "\n".join(gen_stmts(rng, d - 1, vars_, 1))))
+        elif EXT[0] and r < 0.965:
+            k = rng.randrange(4)
+            if k == 0:
+                out.append("$v%d = match (%s) {\n1 => %s,\n2, 3 => %s,\ndefault => %s,\n};" % (
+                    rng.randrange(4), gen_expr(rng, 1, vars_), gen_expr(rng, 1, vars_), gen_expr(rng, 1, vars_), gen_expr(rng, 1, vars_)))
+            elif k == 1:
+                out.append("$j = 0;\ndo {\n%s\n$j = $j + 1;\n} while ($j < 2);" % "\n".join(gen_stmts(rng, d - 1, vars_ + ["$j"], 1)))
+            elif k == 2:
+                out.append("$cl = function ($p) use (&$v0) {\n%s\nreturn $p;\n};\n$v1 = $cl(%s);" % (
+                    "\n".join(gen_stmts(rng, d - 1, vars_ + ["$p"], 1)), gen_expr(rng, 1, vars_)))
+            else:
+                out.append("$v2 = isset($v%d) ? (int)(%s) : [%s][0] ?? null;" % (rng.randrange(4), gen_expr(rng, 1, vars_), gen_expr(rng, 1, vars_)))
         else:
             out.append("switch (%s) {\ncase 1:\n%s\nbreak;\ndefault:\n%s\n}" % (gen_expr(rng, 1, vars_),
                                                                                    "\n".join(gen_stmts(rng, d - 1, vars_, 1)),
@@ -152,7 +167,7 @@ def arraylit_sources():
     return out
 
 
-def token_mutants(rng, data, toks, nprefix, ndel, ndup):
+def token_mutants(rng, data, toks, nprefix, ndel, ndup, nsub=0):
     """prefixes at token boundaries, single-token deletions and duplications (spans from the real lexer)"""
     res = []
     spans = [(t[1], t[2]) for t in toks if 0 <= t[1] <= t[2] <= len(data)]
@@ -164,7 +179,28 @@ def token_mutants(rng, data, toks, nprefix, ndel, ndup):
         res.append(("delete:" + data[a:b].decode("latin-1")[:12], data[:a] + data[b:]))
     for (a, b) in rng.sample(spans, min(ndup, len(spans))):
         res.append(("dup:" + data[a:b].decode("latin-1")[:12], data[:b] + b" " + data[a:b] + data[b:]))
+    # single-token SUBSTITUTION: a token replaced by one of a small alphabet (a defect that deleting cannot reach:
+    # `switch (1)` -> `switch (;)`)
+    for (a, b) in rng.sample(spans, min(nsub, len(spans))):
+        for sub in rng.sample(SUBST, 4):
+            res.append(("sub:%s->%s" % (data[a:b].decode("latin-1")[:8], sub.decode()), data[:a] + sub + data[b:]))
+    # the whole content of a parenthesis / bracket pair replaced by one alphabet token
+    pairs, stack = [], []
+    for t in toks:
+        txt = data[t[1]:t[2]] if 0 <= t[1] <= t[2] <= len(data) else b""
+        if txt in (b"(", b"["):
+            stack.append(t)
+        elif txt in (b")", b"]") and stack:
+            o = stack.pop()
+            if o[2] < t[1]:
+                pairs.append((o[2], t[1]))
+    for (a, b) in rng.sample(pairs, min(nsub, len(pairs))):
+        for sub in ([b";", b"?>", b")", b""] + rng.sample(SUBST[2:], 3)) if nsub <= 2 else SUBST:
+            res.append(("inner->%s" % sub.decode(), data[:a] + sub + data[b:]))
     return res
+
+
+SUBST = [b";", b")", b"(", b",", b"{", b"}", b"?>", b"+", b"foo", b"$z", b"1", b"=>", b":", b"", b"[", b"]"]
 
 
 def byte_mutants(rng, data, n):
@@ -304,7 +340,8 @@ def main(ck):
                 data = data[:limit]
             bases.append((data, "template" if f.endswith(".php") else "plain", "corpus", False))
         # (ii) grammar-generated programs (safe to execute)
-        for _ in range(120 if quick else 1500):
+        for gi in range(120 if quick else 1500):
+            EXT[0] = gi % 3 == 0
             if rng.random() < 0.25:
                 bases.append((b"<html>\n<?php\n" + gen_program(rng).encode() + b"?>\n</html>\n", "template", "generated-t", True))
             else:
@@ -312,11 +349,12 @@ def main(ck):
         for tag, src in arraylit_sources():
             cases.append({"hex": ("function f($x) { return $x; } $v1 = 1; $v2 = 2; $v3 = 3; " + src).encode().hex(), "mode": "plain",
                           "origin": "arraylit", "mut": tag, "run": True})
+        EXT[0] = False
         first = lexrun.run(binary, [{"hex": d.hex(), "mode": m} for d, m, _, _ in bases])
         for (data, mode, origin, runnable), o in zip(bases, first):
             cases.append({"hex": data.hex(), "mode": mode, "origin": origin, "mut": "none", "run": runnable})
             toks = o.get("toks") or []
-            k = (6, 4, 3) if quick else (40, 30, 20)
+            k = (6, 4, 3, 2) if quick else (40, 30, 20, 12)
             for mut, d in token_mutants(rng, data, toks, *k) + byte_mutants(rng, data, 4 if quick else 20):
                 cases.append({"hex": d.hex(), "mode": mode, "origin": origin, "mut": mut, "run": runnable})
 
@@ -422,6 +460,18 @@ def main(ck):
             "if-chain": lambda n: b"if ($a) { $b = 1; } " * n,
             "alt-syntax": lambda n: b"<?php " + b"if ($a): $b = 1; endif; " * n,
             "html": lambda n: b"<p>x</p>\n" * n + b"<?php $x = 1;",
+            # long FLAT inputs: statements ended by a newline only (no ';', '{', '}' anywhere), and other flat repetitions
+            "nl-assign": lambda n: b"".join(b"$a%d = 123\n" % (k % 10) for k in range(n)),
+            "nl-assign-t": lambda n: b"<?php\n" + b"".join(b"$a%d = 123\n" % (k % 10) for k in range(n)),
+            "nl-calls": lambda n: b"f(1)\n" * n,
+            "nl-echo": lambda n: b"echo 1\n" * n,
+            "nl-mixed": lambda n: b"$a = 1\necho $a\nf($a)\n$b = $a + 2\nreturn $b\n$c = [1, 2]\n$d = 'x' . 'y'\n" * (n // 7 + 1),
+            "nl-idents": lambda n: b"a7 = 123\n" * n,
+            "args-long": lambda n: b"f(" + b"1, " * n + b"1);",
+            "keyed-array": lambda n: b"$x = [" + b"'k' => 1, " * n + b"'z' => 2];",
+            "elseif-ladder": lambda n: b"if ($a) { $b = 1; }" + b" elseif ($a) { $b = 2; }" * n + b" else { $b = 3; }",
+            "functions": lambda n: b"".join(b"function g%d($p) { return $p; }\n" % k for k in range(n)),
+            "cases": lambda n: b"switch ($a) {\n" + b"".join(b"case %d: $b = 1; break;\n" % k for k in range(n)) + b"}",
             "heredoc-nest": lambda n: b"$x = " + b"<<<A\n{$a[" * n + b"1" + b"]}\nA\n" * n + b";",
         }
         n0 = 4000 if quick else 20000
@@ -431,7 +481,7 @@ def main(ck):
             for n in (n0, 4 * n0):
                 src = f(n // slow.get(name, 1))
                 for rep in range(3):
-                    treq.append({"hex": src.hex(), "mode": "template" if name in ("alt-syntax", "html") else "plain", "parse": True,
+                    treq.append({"hex": src.hex(), "mode": "template" if name in ("alt-syntax", "html", "nl-assign-t") else "plain", "parse": True,
                                  "run": False, "budget_ms": 120000})
                     tkey.append((name, n))
         touts = lexrun.run(binary, treq, nproc=13)
@@ -501,10 +551,10 @@ def main(ck):
         for pr, o in zip(progs, first):
             ssrcs.append(pr)
             toks = [t[1] if t[0] not in ("true", "false", "null") else t[0] for t in (o.get("toks") or [])]
-            for _ in range(7 if quick else 25):
+            for _ in range(9 if quick else 30):
                 if not toks:
                     break
-                k = rng.randrange(4)
+                k = rng.randrange(5)
                 i = rng.randrange(len(toks))
                 t2 = list(toks)
                 if k == 0:
@@ -513,6 +563,8 @@ def main(ck):
                     del t2[i]
                 elif k == 2:
                     t2.insert(i, t2[i])
+                elif k == 3:
+                    t2[i] = rng.choice(INS)              # substitution
                 else:
                     t2.insert(i, rng.choice(INS))
                 ssrcs.append(" ".join(t2))
